@@ -258,22 +258,39 @@ Section Skel.
       end
     else model_error "interp_schedule" st.
 
+  (* The `if <recompute condition>:` block is translated in three consecutive pieces (Gen/Sim_Z.v):
+       pre  : written before the scheduler is called  (`self._resolve = True`)
+       mid  : scheduler.run(); _update_schedules(...); schedule_history   — collaborator calls only
+       post : `_last_schedule_update = _iteration; _resolve = False` once the schedule is applied.
+     The exact-arity patterns below make this file stop compiling if `pre` writes anything but _resolve
+     or `mid` writes any attribute; `post` must provide both fields. *)
+  Definition schedule_pre_resolve : bool :=
+    let '(Build_Simulator_schedule_pre_out _ r) := Simulator_schedule_pre in r.
+  Definition schedule_mid_effects (t : Z) : list (string * list Z) :=
+    let '(Build_Simulator_schedule_mid_out _ effs) := Simulator_schedule_mid t None 0 in effs.
+                                                       (* store_schedule_history = False *)
+
+  (* a resolve stays pending while the scheduler runs *)
+  Definition before_schedule (st : state) : state := set_flags st schedule_pre_resolve (last_upd st).
+
   (* what happens once the scheduler, shown view v, has returned schedule s.  This definition does
      not mention `sched`: the simulator's next state depends on the scheduler only through s. *)
   Definition apply_schedule (st : state) (v : V) (s : Sch) : resS state :=
     let st1 := log_call st v in
-    let blk := Simulator_schedule_block (iter st) None 0 in    (* store_schedule_history = False *)
-    match run_effects (interp_schedule s) (Simulator_schedule_block_effects blk) st1 with
-    | OkS st2 => OkS (set_flags st2 (Simulator_schedule_block__resolve blk)
-                                (Simulator_schedule_block__last_schedule_update blk))
+    match run_effects (interp_schedule s) (schedule_mid_effects (iter st)) st1 with
+    | OkS st2 =>
+        let post := Simulator_schedule_post (iter st) in
+        OkS (set_flags st2 (Simulator_schedule_post__resolve post)
+                       (Simulator_schedule_post__last_schedule_update post))
     | ErrS e st2 => ErrS e st2
     end.
 
   Definition sched_phase (st : state) : resS state :=
     if Simulator_recompute_cond (iter st) (last_upd st) (resolve st) maxrec then
-      match num_view (iter st) (occ st) (num st) with
-      | Err e => ErrS e st                         (* Interface.active_sessions() raised *)
-      | Ok v => apply_schedule st v (sched v)
+      let st0 := before_schedule st in
+      match num_view (iter st0) (occ st0) (num st0) with
+      | Err e => ErrS e st0                        (* Interface.active_sessions() raised *)
+      | Ok v => apply_schedule st0 v (sched v)
       end
     else OkS st.
 
